@@ -110,6 +110,7 @@ def pool():
     dyn("d-hex-traj", hexa, [(11.0, 0.25, 0.0), (12.0, 2.0, 0.0), (12.0, 4.5, 0.0)])
     # turns on the spot: consecutive states share the position, the occupied lanelets change with the orientation only
     dyn("d-rect-turn", rect, [(2.0, 0.5, 0.0), (4.0, 0.5, 0.0), (4.0, 0.5, math.pi / 2), (4.0, 0.5, 0.0), (4.0, 0.5, 1.2)])
+    dyn("d-offcentre-traj", ["rect", 1.0, 1.0, 0.0, 2.0, 0.0], [(2.0, 1.0, 0.0), (5.0, 1.0, 0.0), (7.0, 1.0, 0.0)])
     dyn("d-rect-noprediction", rect, [(4.0, 2.0, 0.3)])
     dyn("d-circle-noprediction", circ, [(4.0, 1.0, 0.0)], t0=1)
     return P
@@ -236,6 +237,9 @@ def run_inputs(ids, onames, route, res, tmpdir):
     from commonroad.common.file_reader import CommonRoadFileReader
     from commonroad.common.util import FileFormat
     case = {"k": "inputs", "ids": ids, "obstacles": list(onames), "route": route}
+    if route == "xml" and "d-offcentre-traj" in onames:
+        res.guarded += 1        # the 2020a XML format stores the shape of a dynamic obstacle without a centre: an off-centre one is not expressible
+        return
     sp = scenario_spec(ids, onames)
     P = {n: o for n, o in zip(onames, sp["obstacles"])}
     res.transitions += 1; res.states += 1
